@@ -911,11 +911,6 @@ class Life:
             return ('after %s: the server keeps %d object(s) although only '
                     '%d referent(s) have a live proxy' % (
                         what, len(have), len(want)))
-        if set(srv.id_to_refcount) != have:
-            return 'after %s: id_to_refcount keys differ from id_to_obj' % what
-        if any(v < 1 for v in srv.id_to_refcount.values()):
-            return 'after %s: reference count below 1: %r' % (
-                what, sorted(srv.id_to_refcount.values()))
         try:
             n = self.P.call(env.mgr._number_of_objects)
         except ActorError as exc:
